@@ -336,10 +336,19 @@ def read_ndjson(path):
     return out
 
 
+def _strip_nulls(o):
+    # TLC's Json module cannot represent null
+    if isinstance(o, dict):
+        return {k: _strip_nulls(v) for k, v in o.items() if v is not None}
+    if isinstance(o, list):
+        return [_strip_nulls(v) for v in o if v is not None]
+    return o
+
+
 def write_ndjson(path, objs):
     with open(path, "w") as fh:
         for o in objs:
-            fh.write(json.dumps(o, separators=(",", ":")) + "\n")
+            fh.write(json.dumps(_strip_nulls(o), separators=(",", ":")) + "\n")
 
 
 # ----------------------------------------------------------------------------
